@@ -26,6 +26,32 @@ def quiet() -> None:
     _quiet = True
 
 
+def loud() -> None:
+    """every log call of every level and source evaluates its lazy message, as the real logger does at debug level with
+    every source enabled (exabgp.logger.log.logger: msg_str = message(), no exception handler around it); the text is dropped"""
+    global _quiet
+    import types
+
+    from exabgp.environment import getenv
+    from exabgp.logger import log, option
+
+    getenv()
+    counter = {'n': 0}
+
+    def evaluate(logger_func, message, source, level):
+        counter['n'] += 1
+        text = message()
+        if not isinstance(text, str):
+            raise TypeError(f'log message of source {source!r} is {type(text).__name__}, not str')
+        text.split('\n')
+
+    sink = lambda *a, **k: None  # noqa: E731
+    option.logger = types.SimpleNamespace(debug=sink, info=sink, warning=sink, error=sink, critical=sink, fatal=sink)
+    log.logger = staticmethod(evaluate)
+    log.evaluated = counter
+    _quiet = True
+
+
 class ConfigError(Exception):
     pass
 
